@@ -72,7 +72,8 @@ def main():
             tasks.append({"sc": i, "st0": st0, "horizon": hz, "tuple_statuses": (len(tasks) % 5 == 0),
                           "tmin": 2 if len(tasks) % 7 == 0 else 0,
                           "scale": (1.0, 1.0, 2.0 ** -40, 1.0, 2.0 ** 30)[len(tasks) % 5]})
-    done = common.pool_run(contagion.run_scenario, tasks, lambda r: bool(r["problems"]))
+    done = common.pool_run(contagion.run_scenario, tasks, lambda r: bool(r["problems"]), is_settled=lambda r: bool(r.get("settled")))
+    common.report_settled(chk, [r for _, r in done])
     for t, r in done:
         chk.cov["evaluations"] += r["leaves"] + r["arr"]
         chk.cov["traces_validated_against_impl"] += r["leaves"]
